@@ -1,11 +1,14 @@
 #!/bin/sh
 # usage: seed_check.sh <seeded/ID dir> <Cxx> [tier]   — runs the check against a scratch
-# worktree of /repo with the seeded patch applied (VERIF_REPO), then removes it.
+# worktree of /repo with the seeded patch applied (VERIF_REPO), then removes it and restores
+# the generated tables and the evidence file (evidence is only ever committed from /repo itself).
+# VERIF_DIR=<builder worktree> runs the checks of that worktree instead of /verif.
 D="$(cd "$1" && pwd)"; P="$2"; T="${3:-quick}"
 WT=/tmp/seedcheck.$$
 git -C /repo worktree add -q --detach "$WT" HEAD || exit 2
 git -C "$WT" apply "$D/patch.diff" || { echo "PATCH DOES NOT APPLY"; git -C /repo worktree remove --force "$WT"; exit 2; }
-cd /verif && VERIF_REPO="$WT" ./check "$P" --tier "$T"; RC=$?
-git -C /repo worktree remove --force "$WT"; git -C /verif checkout -- lean/SaVerif/Gen 2>/dev/null
+V="${VERIF_DIR:-/verif}"
+cd "$V" && VERIF_REPO="$WT" ./check "$P" --tier "$T"; RC=$?
+git -C /repo worktree remove --force "$WT"; git -C "$V" checkout -- lean/SaVerif/Gen "evidence/$P.json" 2>/dev/null
 echo "seed_check $D $P rc=$RC"
 exit $RC
